@@ -14,8 +14,9 @@
    * operands (mk_tr): a value that lives in a vreg is the leaf REG<ty>; a value of the same block with a
      single user is nested; LABEL (globals, literal data), CONST<ty> and FPREL<ptr> (alloca / stack
      parameter: wants_vreg = False) are re-materialised as leaves.
-   * do_binop/do_unop/do_cast/do_undefined/do_const: <OP><ty>(a, b), NEG/INV<ty>(a), <FROM>TO<ty>(a) — no
-     node when both types are integers of the same width in the same register class — UND<ty>, CONST<ty>;
+   * do_binop/do_unop/do_undefined/do_const: <OP><ty>(a, b), NEG/INV<ty>(a), UND<ty>, CONST<ty>;
+     do_cast: NOT hand-modelled: the operator (or elision) for every type pair is observed on the real code
+     by the exporter (td_casts), so a change of do_cast changes the language;
      ir.ptr is replaced by the target's pointer type everywhere (new_node).
    * roots: MOV<ty>(e) (value leaving the tree, return value, call argument, phi copy, asm input),
      MOV<ty>(LDR<ty>(addr)), STR<ty>(addr, e), CJMP<ty>(a, b), JMP, CALL, ASM, MOVB(dst, src).
@@ -28,7 +29,10 @@ Import ListNotations.
 Local Open Scope string_scope.
 
 Record tydesc : Type := { ty_name : string; ty_cls : string; ty_int : bool; ty_bits : Z }.
-Record tdesc : Type := { td_ptr : string; td_types : list tydesc }.
+(* td_casts: what the real do_cast + make_trees produce for `return cast a`, observed by the exporter for every
+   (source, destination) pair of value types and ptr: (operand tree type, result tree type, operator), the
+   operator being "" when the cast is mapped to its source value (elided).  ptr shows up as the pointer type. *)
+Record tdesc : Type := { td_ptr : string; td_types : list tydesc; td_casts : list (string * string * string) }.
 
 Definition int_binops : list string := ["ADD"; "SUB"; "MUL"; "DIV"; "REM"; "OR"; "SHL"; "SHR"; "AND"; "XOR"].
 Definition float_binops : list string := ["ADD"; "SUB"; "MUL"; "DIV"].
@@ -39,12 +43,14 @@ Definition E (t : string) : string := "E" ++ t.
 Definition L (t : string) : string := "L" ++ t.
 Definition mkp (s op : string) (args : list string) : prod := {| p_sort := s; p_op := op; p_args := args |}.
 
-Definition cast_elided (f t : tydesc) : bool :=
-  ty_int f && ty_int t && Z.eqb (ty_bits f) (ty_bits t) && String.eqb (ty_cls f) (ty_cls t).
+Definition cast_elided (d : tdesc) (f t : string) : bool :=
+  existsb (fun c => match c with (a, b, o) => String.eqb a f && String.eqb b t && String.eqb o "" end)
+          (td_casts d).
 
-(* canonical representative of the cast-elision class of a type *)
+(* canonical representative of the cast-elision class of a type (the exporter checks that elision is a
+   symmetric, transitive relation on the value types) *)
 Definition canon (d : tdesc) (t : tydesc) : string :=
-  match find (fun f => cast_elided f t) (td_types d) with
+  match find (fun f => cast_elided d (ty_name f) (ty_name t)) (td_types d) with
   | Some f => ty_name f
   | None => ty_name t
   end.
@@ -61,8 +67,9 @@ Definition prods_of_type (d : tdesc) (t : tydesc) : list prod :=
   [mkp e ("REG" ++ n) []; mkp e ("CONST" ++ n) []; mkp e ("UND" ++ n) []]
   ++ map (fun o => mkp e (o ++ n) [e; e]) (if ty_int t then int_binops else float_binops)
   ++ map (fun o => mkp e (o ++ n) [e]) (if ty_int t then int_unops else float_unops)
-  ++ flat_map (fun f => if cast_elided f t then [] else [mkp e (ty_name f ++ "TO" ++ n) [E (canon d f)]])
-              (td_types d)
+  ++ flat_map (fun c => match c with (a, b, o) =>
+                 if String.eqb b n && negb (String.eqb o "") then [mkp e o [E (canon_name d a)]] else [] end)
+              (td_casts d)
   ++ (if String.eqb n (td_ptr d) then [mkp e "LABEL" []; mkp e ("FPREL" ++ n) []] else [])
   ++ [mkp "S" ("MOV" ++ n) [e];
       mkp (L n) ("LDR" ++ n) [ep];
